@@ -210,6 +210,14 @@ def run(ctx: Context) -> None:
         bm = ctx.func(f"{MASKING}.blur_mask")
         bflow = ctx.flow(bm)
         arr_p, size_p = bm.params[0], bm.params[1]
+        # the reach of the blur is the caller's: the size is not adjusted on the way (a clamp to the shortest axis shortens the reach along the long one)
+        resized = [n for n in ast.walk(bm.node) if isinstance(n, ast.Name) and n.id == size_p and isinstance(n.ctx, (ast.Store, ast.Del))]
+        fine = all(isinstance(st, ast.Assign) and isinstance(st.value, ast.Call) and dotted(st.value.func) in ('int', 'operator.index') and len(st.value.args) == 1
+                   and norm_text(st.value.args[0]) == size_p
+                   for st in walk_no_nested(bm.node) if isinstance(st, (ast.Assign, ast.AugAssign, ast.AnnAssign))
+                   and any(isinstance(t, ast.Name) and t.id == size_p for t in ast.walk(getattr(st, 'targets', [getattr(st, 'target', None)])[0])))
+        ctx.check('R07.3', not resized or fine, "the window reaches `size` cells on every axis, as asked: the size argument is used as given", bm, resized[0] if resized else bm.node,
+                  construct=f"assignments to `{size_p}`: {len(resized)}")
         pads = [c for c in calls_in(bm, nested=True) if callee(ctx, bm, c) == 'numpy.pad']
         ctx.need('R07.3', len(pads) == 1, "blur_mask pads the input once", bm)
         pd = pads[0]
